@@ -65,14 +65,40 @@ def _run_cli(cmd, smt2, timeout_s):
         return "unknown", "solver missing", time.time() - t
 
 
+_OBS = []
+
+
+def _z3_direct(ob, timeout_ms, seed):
+    """in the forked worker the parent's z3 terms are available as-is: no SMT-LIB round trip"""
+    s = z3.Solver()
+    s.set("timeout", timeout_ms)
+    s.set("random_seed", seed)
+    s.add(*ob.pc)
+    s.add(z3.Not(ob.goal))
+    t = time.time()
+    r = s.check()
+    dt = time.time() - t
+    if r == z3.unsat:
+        return "unsat", "", dt
+    if r == z3.sat:
+        try:
+            m = str(s.model())[:4000]
+        except Exception:
+            m = ""
+        return "sat", m, dt
+    return "unknown", s.reason_unknown(), dt
+
+
 def _work(job):
-    idx, smt2, timeout_ms, seed, fallback = job
+    idx, timeout_ms, seed, fallback = job
+    ob = _OBS[idx]
     res = {"idx": idx, "tries": []}
-    r, info, dt = _z3_check(smt2, timeout_ms, seed, True)
+    r, info, dt = _z3_direct(ob, timeout_ms, seed)
     res["tries"].append({"backend": "z3-%s(py)" % z3.get_version_string(), "result": r, "s": round(dt, 3)})
     verdict, model, backend = r, info, "z3"
     if r not in ("unsat", "sat") and fallback:
         # second opinions
+        smt2 = to_smt2(ob.pc, ob.goal)
         s2 = smt2 if "(check-sat)" in smt2 else smt2 + "\n(check-sat)\n"
         tsec = max(5, min(10, timeout_ms // 1000))
         r2, info2, dt2 = _run_cli(["/usr/bin/cvc5", "--strings-exp", "--lang=smt2", f"--tlimit={tsec*1000}", "-"], s2, tsec)
@@ -91,10 +117,18 @@ def _work(job):
 
 def discharge(obligations, timeout_ms=None, seed=0, procs=None, confirm=False, fallback=True):
     """obligations: list of engine.Obligation.  Returns list of result dicts aligned with the input."""
+    global _OBS
     timeout_ms = timeout_ms or QUICK_MS
+    _OBS = list(obligations)
     jobs = []
     for i, ob in enumerate(obligations):
-        jobs.append((i, to_smt2(ob.pc, ob.goal), timeout_ms, seed, fallback))
+        t = timeout_ms
+        fb = fallback
+        h = getattr(ob, "hints", None)
+        if isinstance(h, dict) and h.get("timeout_ms"):
+            t = min(t, h["timeout_ms"])
+            fb = fallback and not h.get("no_fallback")
+        jobs.append((i, t, seed, fb))
     procs = procs or min(16, max(1, len(jobs)))
     if len(jobs) <= 2 or procs == 1:
         out = [_work(j) for j in jobs]
@@ -104,9 +138,9 @@ def discharge(obligations, timeout_ms=None, seed=0, procs=None, confirm=False, f
             out = pool.map(_work, jobs, chunksize=max(1, len(jobs) // (procs * 4)))
     out.sort(key=lambda r: r["idx"])
     if confirm:
-        for r, j in zip(out, jobs):
+        for r, ob in zip(out, obligations):
             if r["verdict"] == "unsat":
-                s2 = j[1] + "\n"
+                s2 = to_smt2(ob.pc, ob.goal) + "\n"
                 r2, _i, dt = _run_cli(["/usr/bin/cvc5", "--strings-exp", "--lang=smt2", "--tlimit=20000", "-"], s2 if "(check-sat)" in s2 else s2 + "(check-sat)\n", 20)
                 r["confirm"] = {"backend": "cvc5-1.0.3", "result": r2, "s": round(dt, 3)}
     return out
